@@ -105,6 +105,8 @@ class OpsMixin:
                 return True
             return self.decide(f"nonempty:{v.desc}")
         if isinstance(v, SVal):
+            if self.is_counter(v):
+                return self.sym_cmp(Sym({v.desc: 1}), ">", 0)
             return self.decide(f"truthy:{v.desc}")
         if isinstance(v, Unknown):
             if assume:
@@ -123,6 +125,14 @@ class OpsMixin:
                 return True
             return self.decide(f"nonempty:{self.describe(v)}")
         raise AnalysisError(f"truth value of {v!r}")
+
+    def is_counter(self, v):
+        """A volatile int attribute that starts at a non-negative constant and is only incremented."""
+        if isinstance(v, SVal) and isinstance(v.init, Cst) and isinstance(v.init.value, int) and not isinstance(v.init.value, bool):
+            if v.desc not in self.intervals:
+                self.intervals[v.desc] = (max(0, v.init.value) if v.init.value >= 0 else None, None)
+            return True
+        return False
 
     def items_desc(self, lst):
         out = []
@@ -228,14 +238,17 @@ class OpsMixin:
                 diff_terms[k] = diff_terms.get(k, 0) - c
             d = Sym({k: c for k, c in diff_terms.items() if c}, ls.const - rs.const)
             return self.sym_cmp(d, sym, 0)
-        if sym in ("==", "!="):
+        if sym in ("==", "!=") and not (
+            (isinstance(l, SVal) and self.is_counter(l) and isinstance(r, Cst))
+            or (isinstance(r, SVal) and self.is_counter(r) and isinstance(l, Cst))
+        ):
             res = self.equal(l, r)
             return res if sym == "==" else not res
         if isinstance(l, (SVal, Unknown)) and isinstance(r, Cst) and isinstance(r.value, int):
             # counters / unknown ints against a constant
             return self.sym_cmp(Sym({l.desc: 1}), sym, r.value)
         if isinstance(r, (SVal, Unknown)) and isinstance(l, Cst) and isinstance(l.value, int):
-            flip = {"<": ">", "<=": ">=", ">": "<", ">=": "<="}[sym]
+            flip = {"<": ">", "<=": ">=", ">": "<", ">=": "<=", "==": "==", "!=": "!="}[sym]
             return self.sym_cmp(Sym({r.desc: 1}), flip, l.value)
         if isinstance(l, StrOp) and l.op == "ord" and isinstance(r, Cst):
             return self.decide(f"ord:{self.describe(l.args[0])}{sym}{r.value}")
@@ -492,6 +505,8 @@ class OpsMixin:
 
     def instantiable(self, ci):
         """Is the class instantiated anywhere (constructor call or dispatch table)?"""
+        cache = self.prog.__dict__.setdefault("_olsa_cache", {})
+        self._instantiable = cache.get("instantiable")
         if self._instantiable is None:
             names = set()
             for mi in self.prog.modules.values():
@@ -503,6 +518,7 @@ class OpsMixin:
                             if isinstance(v, ast.Name):
                                 names.add(v.id)
             self._instantiable = names
+            cache["instantiable"] = names
         return ci.name in self._instantiable
 
     def isinstance_force(self, v, cls):
@@ -651,7 +667,15 @@ class OpsMixin:
         if name in ("lineno", "col_offset", "end_lineno", "end_col_offset"):
             return Unknown(f"{u.path()}.{name}", typ="int")
         if name == "_fields":
-            raise AnalysisError("reflection over _fields of a user node is analysed by a dedicated rule")
+            if len(u.kinds) == 1:
+                import ast as _ast
+
+                return PTuple([Cst(f) for f in getattr(_ast, next(iter(u.kinds)))._fields])
+            k = self.decide(f"kind:{u.path()}", sorted(u.kinds))
+            u.kinds = frozenset([k])
+            import ast as _ast
+
+            return PTuple([Cst(f) for f in getattr(_ast, k)._fields])
         if u.opt:
             # reading a field of a possibly-None node: Python would raise on None
             self.events.append(("maybe-none", f"{u.path()}.{name}", self.cur_site))
